@@ -135,6 +135,16 @@ func verifyFuncOnce(w *World, key string, opts VerifyOpts) (res *FuncResult) {
 		fr.fv = append(fr.fv, n)
 		x.assumeAllocatedDeep(st0, f.Type(), n)
 		c.assume(not(eq(n, "nil")))
+		// a captured variable is a variable of the enclosing function: an object of its own (never a field or element
+		// of another object), distinct from the other captured variables
+		c.assume(eq(sx("path", n), "proot"))
+		for _, o := range fr.fv[:len(fr.fv)-1] {
+			c.assume(not(eq(sx("ref", n), sx("ref", o))))
+		}
+		if pt, ok := f.Type().Underlying().(*types.Pointer); ok && immutableFreeVar(fn, len(fr.fv)-1) {
+			v := c.define("fvval_"+mangle(f.Name()), c.sortOf(pt.Elem()), x.load(st0, pt.Elem(), n))
+			x.immut = append(x.immut, immutCell{loc: n, val: v, ty: pt.Elem()})
+		}
 	}
 	if fn.Synthetic == "package initializer" && fn.Pkg != nil {
 		// the package initializer runs once: its guard is false on entry
@@ -184,7 +194,9 @@ func verifyFuncOnce(w *World, key string, opts VerifyOpts) (res *FuncResult) {
 	// lock balance
 	for i, mu := range x.mutexTerms {
 		_ = i
-		g := eq(sx("select", x.get(ret.st, "lock"), mu), sx("select", x.get(fr.entry, "lock"), mu))
+		// the mutex of an object this function allocated did not exist on entry: it counts as free then
+		was := ite(sx(">=", sx("ref", mu), x.get(fr.entry, "alloc")), "0", sx("select", x.get(fr.entry, "lock"), mu))
+		g := eq(sx("select", x.get(ret.st, "lock"), mu), was)
 		if hasOpt(ct, "lock-unbalanced") {
 			break
 		}
